@@ -19,6 +19,21 @@ class Map:
             raise KeyError(f"Key {key} not found in usage map.")
 
 
+def _split_inputs(origin):
+    # Returns (inputs that are rendered once in the statement/expression of the application,
+    #          inputs that the output is an alias of and that are therefore rendered wherever the output is used)
+    if isinstance(origin, tracer.Cast):
+        return [], [origin.input]
+    elif isinstance(origin, tracer.signature.python.CallInplace):
+        return origin.inputs[1:], [origin.xs]
+    elif isinstance(origin, tracer.signature.python.UpdateItem):
+        return origin.inputs, [origin.obj]
+    elif isinstance(origin, tracer.signature.python.Assert):
+        return [origin.condition], list(pytree.flatten(origin.xs))
+    else:
+        return origin.inputs, []
+
+
 def get_usages(object):
     map = Map()
     done = set()
@@ -26,17 +41,25 @@ def get_usages(object):
     def _recurse(x):
         if isinstance(x, str | int | float | np.integer | np.floating | bool) or x is None:
             return
-        if id(x) in done:
-            return
+        map.id_to_usagenum[id(x)] += 1
+        first = id(x) not in done
         done.add(id(x))
 
-        map.id_to_usagenum[id(x)] += 1
         if isinstance(x, tracer.Tracer):
             if x.origin is not None:
-                for input in x.origin.inputs:
+                inputs, aliased_inputs = _split_inputs(x.origin)
+                if first:
+                    # All outputs of an application are computed together
+                    for output in pytree.flatten(x.origin.output):
+                        done.add(id(output))
+                        map.id_to_usagenum[id(output)] += 0
+                    for input in inputs:
+                        _recurse(input)
+                # Every use of an alias is a use of the aliased inputs
+                for input in aliased_inputs:
                     _recurse(input)
-                for output in pytree.flatten(x.origin.output):
-                    _recurse(output)
+        elif not first:
+            return
         elif isinstance(x, list | tuple):
             for input in x:
                 _recurse(input)
